@@ -105,6 +105,16 @@ func NewGraph(sc Scope, tag string) *Graph {
 			row = append(row, v)
 		}
 		g.Sel = append(g.Sel, row)
+		// JSON-LD flattening drops a node object that has nothing but an @id: an existing node
+		// has at least one class or one property value
+		some := smt.False
+		for c := range sc.Classes {
+			some = smt.Or(some, g.HasClass[i][c])
+		}
+		for p := range sc.Preds {
+			some = smt.Or(some, smt.Not(smt.Eq(row[p], smt.BV(0, 8))))
+		}
+		g.Side = append(g.Side, smt.Implies(g.Exists[i], some))
 		lv := smt.Var(fmt.Sprintf("%s_lex_%d", tag, i), 8)
 		g.Vars = append(g.Vars, lv)
 		g.Side = append(g.Side, smt.BvCmp(smt.OpBvUle, lv, smt.BV(uint64(len(sc.Lexical)), 8)))
